@@ -1,11 +1,12 @@
 SPECIFICATION Spec
 CONSTANTS
-  Layouts = {"two-plain", "numa-plain"}
-  WlSets = {"none", "bound-unbound"}
+  Layouts = {"two-plain", "numa-plain", "one-down"}
+  WlSets = {"none", "one-bound", "bound-unbound"}
   Strategies = {"AUTO", "FILL"}
-  Counts = {2}
+  Counts = {1, 2}
   Reqs = {"b", "u"}
   Deltas = {"cpu+", "mem+", "unbind", "huge"}
+  Includes <- IncludesQuick
   Modes = {"fault", "crash"}
 CONSTRAINT Emit
 CHECK_DEADLOCK FALSE
